@@ -7,7 +7,7 @@ E1  TLC, one run of spec/pure/MCCpuSet.tla (CpuList.tla, Grouping.tla), exhausti
       definitions for every set over a reduced id space and every argument incl. negative / huge / int32
       extremes, and at the real bound 1024 for boundary sets and arguments;
     - the transcribed packing algorithm satisfies every promised grouping property for EVERY well-formed
-      cache topology over 3 CPUs (thorough: 4).
+      cache topology over 3 CPUs (thorough: 4; of those at most 20000, every k-th, are fed to the code).
 E2  direction spec -> code: the strings and topologies enumerated by that TLC run are fed to the compiled
     parseLinuxCpuList / buildGroupsFromCacheTopology.
 E5  the compiled code on the TLC-generated inputs, boundary inputs and seeded random inputs (random
@@ -24,14 +24,22 @@ SPEC = 'spec/pure'
 WHAT = 'CpuSet set algebra / CPU-list parsing / cache-topology grouping'
 
 
-def _gen_inputs(out, path):
-    """Glue only: copies the inputs TLC enumerated (PrintT(ToJson(..)) lines) into the driver's format."""
+def _gen_inputs(out, path, max_topo):
+    """Glue only: copies the inputs TLC enumerated (PrintT(ToJson(..)) lines) into the driver's format.
+    All strings are kept; if TLC enumerated more than max_topo topologies every k-th one is kept (selection by
+    position only, no look at the content)."""
     nstr = ntopo = 0
+    lines = [l for l in out.splitlines() if l.startswith('"[\\"GEN')]
+    total_topo = sum(1 for l in lines if 'GENTOPO' in l[:14])
+    stride = max(1, -(-total_topo // max_topo))
+    seen_topo = 0
     with open(path, 'w') as f:
-        for line in out.splitlines():
-            if not line.startswith('"[\\"GEN'):
-                continue
+        for line in lines:
             v = json.loads(json.loads(line))
+            if v[0] == 'GENTOPO':
+                seen_topo += 1
+                if seen_topo % stride:
+                    continue
             if v[0] == 'GENSTR':
                 f.write('P %d %s\n' % (len(v[1]), ' '.join(str(c) for c in v[1])))
                 nstr += 1
@@ -40,7 +48,7 @@ def _gen_inputs(out, path):
                 groups = lambda t: '%d %s' % (len(t), ' '.join('%d %s' % (len(g), ' '.join(map(str, g))) for g in t))
                 f.write('G %d %s %s\n' % (m, groups(l2), groups(l3)))
                 ntopo += 1
-    return nstr, ntopo
+    return nstr, ntopo, total_topo
 
 
 def run(ctx):
@@ -56,22 +64,22 @@ def run(ctx):
     if not res.ok:
         return
     inputs = os.path.join(ctx.work, 'tlc_inputs.txt')
-    nstr, ntopo = _gen_inputs(res.out, inputs)
+    nstr, ntopo, total_topo = _gen_inputs(res.out, inputs, 20000)
     if nstr < 1000 or ntopo < 500:
         raise ToolError('TLC generated too few inputs: %d strings, %d topologies' % (nstr, ntopo))
-    ctx.cov['tlc_generated_inputs'] = {'strings': nstr, 'topologies': ntopo}
+    ctx.cov['tlc_generated_inputs'] = {'strings': nstr, 'topologies_fed': ntopo, 'topologies_enumerated': total_topo}
 
     # E5 -------------------------------------------------------------------------------------------
     tr = os.path.join(ctx.work, 'cpuset.ndjson')
     args = ['--out', tr, '--inputs', inputs, '--seed', ctx.seed]
-    args += ['--ops', 3000, '--oplen', 14, '--randstr', 30000, '--randtopo', 20000] if thorough else \
+    args += ['--ops', 1000, '--oplen', 14, '--randstr', 10000, '--randtopo', 6000] if thorough else \
             ['--ops', 100, '--oplen', 12, '--randstr', 800, '--randtopo', 600]
     tot, _ = ctx.driver(exe, args, WHAT, label='compiled CpuSet (Linux cpu_set_t branch)')
     # the portable branch (uint64_t words_[], used where there is no native affinity set): same driver
     # compiled with -U__linux__; its records are appended to the same trace
     tr2 = os.path.join(ctx.work, 'cpuset_portable.ndjson')
     args2 = ['--out', tr2, '--seed', ctx.seed + 1, '--noedge']
-    args2 += ['--ops', 1500, '--oplen', 14, '--randstr', 5000, '--randtopo', 3000] if thorough else \
+    args2 += ['--ops', 500, '--oplen', 14, '--randstr', 2000, '--randtopo', 1000] if thorough else \
              ['--ops', 70, '--oplen', 12, '--randstr', 150, '--randtopo', 100]
     tot2, _ = ctx.driver(exe_portable, args2, WHAT, label='compiled CpuSet (portable bitset branch)')
     if ctx.violations:
